@@ -166,7 +166,10 @@ fn c15_check(_ctx: &Ctx, c: &TimedCase) -> Report {
       Some(f) => {
         // (+ 0.1 ms: under schedules with a thread start latency every thread runs a
         // microsecond late)
-        if f > end_vt + bound + 100_000 {
+        // ("of its own steps": a thread that the library started only after the last
+        // subscription had ended - e.g. ref_count finishing a synchronous connect whose
+        // subscriber left meanwhile - is measured from its start)
+        if f > end_vt.max(t.spawned_at) + bound + 100_000 {
           rep.fail = fail(format!(
             "library thread {} finished at {} ms, more than the timer periods ({} ms) after the last subscription ended at {} ms",
             t.name,
@@ -694,14 +697,45 @@ pub struct C16ConcCase {
   /// while the other thread's item is still being handed on (a subscriber that takes time)
   #[serde(default)]
   pub timeout: bool,
+  /// hot0.debounce(1) fed by two threads that push an item every millisecond: pushes and
+  /// timer ticks fall on the same instants, their order is the schedule's
+  #[serde(default)]
+  pub debounce: bool,
 }
 
 const SLOW_MS: u64 = 5;
 
 fn c16_conc_strategy(_ctx: &Ctx) -> BoxedStrategy<C16ConcCase> {
   let gaps = || prop::collection::vec(prop::sample::select(vec![3u64, 7, 9, 11, 15, 40]), 1..=3);
-  (prop::sample::select(vec![10u64, 25]), gaps(), gaps(), any::<bool>(), sched_strategy(), prop::bool::weighted(0.3))
-    .prop_map(|(d, g0, g1, merged, sched, timeout)| {
+  (prop::sample::select(vec![10u64, 25]), gaps(), gaps(), any::<bool>(), sched_strategy(), prop::bool::weighted(0.3), prop::bool::weighted(0.25))
+    .prop_map(|(d, g0, g1, merged, sched, timeout, debounce)| {
+      if debounce {
+        let gaps: Vec<Vec<u64>> = vec![vec![1; g0.len() + 2], vec![1; g1.len() + 1]];
+        let mut root = Node::Un(Op::Debounce(1), Box::new(Node::Src(0, Src::Hot(0))));
+        root.renumber();
+        let threads: Vec<Vec<Action>> = gaps
+          .iter()
+          .enumerate()
+          .map(|(t, gs)| {
+            let mut v = Vec::new();
+            for (j, g) in gs.iter().enumerate() {
+              v.push(Action::Advance(*g));
+              v.push(Action::Emit(0, Ev::N(100 * (t as i64 + 1) + j as i64)));
+            }
+            v
+          })
+          .collect();
+        let case = Case {
+          root,
+          hots: vec![HotKind::Harness],
+          hot_illformed: false,
+          conn: None,
+          conn_take: None,
+          recorders: vec![vec![]],
+          actions: vec![Action::Subscribe(0)],
+        };
+        return C16ConcCase { cc: super::conc::ConcCase { case, threads, sched }, d: 1, gaps, merged: false, timeout: false, debounce: true };
+      }
       let merged = merged && !timeout;
       // (timeout: a period no gap of the script reaches, so that the only expiry is the one
       // after the last item)
@@ -738,7 +772,7 @@ fn c16_conc_strategy(_ctx: &Ctx) -> BoxedStrategy<C16ConcCase> {
         recorders: vec![vec![]],
         actions: vec![Action::Subscribe(0)],
       };
-      C16ConcCase { cc: super::conc::ConcCase { case, threads, sched }, d, gaps, merged, timeout }
+      C16ConcCase { cc: super::conc::ConcCase { case, threads, sched }, d, gaps, merged, timeout, debounce: false }
     })
     .boxed()
 }
@@ -760,6 +794,25 @@ fn c16_conc_check(_ctx: &Ctx, c: &C16ConcCase) -> Report {
       rep.classes.push(format!("aborted:{:?}", k));
       return rep;
     }
+  }
+  if c.debounce {
+    rep.classes.clear();
+    rep.classes.push("debounce-with-pushes-on-the-tick-instants".into());
+    // only items the source emitted, none twice, each thread's items in that thread's order
+    let got: Vec<i64> = r.log.recs[0].iter().filter_map(|e| if let Rk::N(p) = &e.k { Some(p.as_i64()) } else { None }).collect();
+    rep.nontrivial = got.len() >= 2;
+    let pushed: Vec<i64> = c.gaps.iter().enumerate().flat_map(|(t, gs)| (0..gs.len()).map(move |j| 100 * (t as i64 + 1) + j as i64)).collect();
+    let mut seen = std::collections::BTreeSet::new();
+    let dup = got.iter().any(|v| !seen.insert(*v));
+    let foreign = got.iter().any(|v| !pushed.contains(v));
+    let disorder = (1..=2).any(|t| {
+      let mine: Vec<i64> = got.iter().copied().filter(|v| v / 100 == t).collect();
+      mine.windows(2).any(|w| w[1] <= w[0])
+    });
+    if dup || foreign || disorder {
+      rep.fail = fail(format!("debounce(1) delivered {:?}: not a selection of the pushed items {:?} in each thread's order, none twice", got, pushed));
+    }
+    return rep;
   }
   if c.timeout {
     rep.classes.clear();
@@ -867,7 +920,7 @@ pub fn properties() -> Vec<Property> {
     },
     Property {
       id: "C16",
-      rule: "cases = kind in {interval.take(n), interval unsubscribed between ticks, interval / timer with periods of 900, 2900, 10500, 25250 us, interval under a subscriber that takes 3..40 ms per tick (ticks consecutive, none early), timer, interval / timer on the default scheduler (run inside subscribe), delay, timeout, timeout with a slow subscriber, sample, debounce, time_interval} x period in {10, 25} ms x gap scripts from {3,7,9,11,15,40} ms (never equal to the period) x ending x generated schedule, 30 % subscribed a second time after the first subscription was cut off right after its last emission (only the second round is judged, counted from its subscribe) or - timeout / sample / debounce - by two subscribers at once (each judged by itself); oracle = (virtual time, event) pairs equal the timing definition (sample/debounce: strictly increasing selection of source items; sample exact when no tick coincides with an emission); non-trivial = >= 3 timed events; two_threads: delay(d) over one hot source or a merge of two, fed by two emitting threads with generated gaps - every item is handed on exactly d after it was emitted, also while another thread's item is being delayed; or timeout(d).delay(5) fed by two threads with gaps below d - exactly one TimedOut, d after the last hand-over",
+      rule: "cases = kind in {interval.take(n), interval unsubscribed between ticks, interval / timer with periods of 900, 2900, 10500, 25250 us, interval under a subscriber that takes 3..40 ms per tick (ticks consecutive, none early), timer, interval / timer on the default scheduler (run inside subscribe), delay, timeout, timeout with a slow subscriber, sample, debounce, time_interval} x period in {10, 25} ms x gap scripts from {3,7,9,11,15,40} ms (never equal to the period) x ending x generated schedule, 30 % subscribed a second time after the first subscription was cut off right after its last emission (only the second round is judged, counted from its subscribe) or - timeout / sample / debounce - by two subscribers at once (each judged by itself); oracle = (virtual time, event) pairs equal the timing definition (sample/debounce: strictly increasing selection of source items; sample exact when no tick coincides with an emission); non-trivial = >= 3 timed events; two_threads: delay(d) over one hot source or a merge of two, fed by two emitting threads with generated gaps - every item is handed on exactly d after it was emitted, also while another thread's item is being delayed; or timeout(d).delay(5) fed by two threads with gaps below d - exactly one TimedOut, d after the last hand-over; or debounce(1) fed by two threads pushing every millisecond (pushes and ticks on the same instants) - a selection of the pushed items, none twice",
       assumptions: vec!["virtual clock owned by the runtime (thread::sleep / Instant redirected)", "timeout arms its timer after the first item (as the statement words it)"],
       subs: vec![
         mk_sub("clock", (1000, 20_000), c16_strategy, c16_check),
